@@ -31,8 +31,9 @@
    contacted"                                                    only for -L -V -T); that a diagnostic is printed is
                                                                  observed on the real binary (oracle), not modelled
   "pdsh never hangs on it"                                       never_hangs, never_hangs_whole (main as a whole, all
-                                                                 three personalities; feeds C03's `f >= 1`),
-                                                                 never_hangs_unchanged_false
+                                                                 three personalities), never_hangs_fanout (composed with
+                                                                 the fan-out LTS of C03: no deadlock, bounded executions
+                                                                 for the accepted fanout), never_hangs_unchanged_false
   valid values are accepted (the converse the text implies)      accepts_valid, takes_value_given
   the switch of opt_args, letter by letter                       switch_table_agrees, switch_table_complete, switch_rows_act,
                                                                  numeric_options_use_table_conv
@@ -60,6 +61,7 @@ import PdshVerif.Opt.Lemmas
 import PdshVerif.Opt.Accept
 import PdshVerif.Opt.Table
 import PdshVerif.Opt.Command
+import PdshVerif.Props.C03
 
 namespace PdshVerif.C18
 open PdshVerif PdshVerif.Opt
@@ -1055,6 +1057,28 @@ theorem never_hangs_whole {fx : Fixes} {d : Defaults} {p : Pers} {env : Env} {ar
     (hd4 : fx.d4 = true) (h : mainPlan fx d p env argv = .ok (c, nx))
     (hplain : c.pcpServer = false ∧ c.pcpClient = false) : c.fanout ≥ 1 ∧ runTerminates c = true :=
   never_hangs hd4 (mainPlan_ok_inv h).1 hplain
+
+/-- NEVER HANGS, composed with the fan-out LTS of C03 (by import of `C03.progress` and `C03.steps_bounded`, whose
+    only hypothesis about the configuration is `0 < f`): whenever main goes on to dsh() (repaired D4), the fanout it
+    hands to the dispatcher is a natural number f >= 1, and for THAT f — for every variant of the dispatcher, every
+    number of targets, every reachable state of dispatcher and workers in which dsh() has not returned — some
+    operation other than a spurious wake-up is enabled (no deadlock, no lost wake-up), and every execution with k
+    spurious wake-ups has at most 18 n + 13 + 3 k steps.  The accepted settings of C18 are exactly the domain of C03. -/
+theorem never_hangs_fanout {fx : Fixes} {d : Defaults} {p : Pers} {env : Env} {argv : List Str} {c : Cfg} {nx : Next}
+    (hd4 : fx.d4 = true) (h : mainPlan fx d p env argv = .ok (c, nx))
+    (hplain : c.pcpServer = false ∧ c.pcpClient = false) :
+    ∃ f : Nat, (f : Int) = c.fanout ∧ 0 < f ∧
+      (∀ (v : Dsh.Fan.Variant) (n : Nat) (s : Dsh.Fan.St), Dsh.Fan.Reach v f n s → ¬ Dsh.Fan.Final s →
+        ∃ l s', l.spurious = false ∧ Dsh.Fan.step s l = some s') ∧
+      (∀ (v : Dsh.Fan.Variant) (n : Nat) (ls : List Dsh.Fan.Label) (s : Dsh.Fan.St),
+        Dsh.Fan.Exec (Dsh.Fan.init v f n) ls s → ls.length ≤ 18 * n + 13 + 3 * ls.countP Dsh.Fan.Label.spurious) := by
+  have hf := (never_hangs_whole hd4 h hplain).1
+  refine ⟨c.fanout.toNat, by omega, by omega, ?_, ?_⟩
+  · intro v n s hr hnf
+    exact Props.C03.progress (by omega) hr hnf
+  · intro v n ls s he
+    have := Props.C03.steps_bounded he
+    omega
 
 /-! ## the personalities: pdsh / pdcp / rpdcp have different option sets -/
 
